@@ -315,8 +315,10 @@ c16_run(const c16_scn *scn, c16_out *out) {
 	g_iob.offset = scn->win_off;
 	g_iob.transfer_size = scn->win_len;
 	if (1 == scn->dir) { /* send task: the window holds the pattern */
-		for (i = 0; i < scn->win_len; i ++)
-			g_iob.data[scn->win_off + i] = c16_pattern(i);
+		for (i = 0; i < scn->win_len; i ++) {
+			if ((size_t)scn->win_off + i < (size_t)scn->buf_size) /* a window past the buffer is generated on purpose: the guards stay intact */
+				g_iob.data[scn->win_off + i] = c16_pattern(i);
+		}
 	}
 	for (i = 0; i < scn->npieces; i ++)
 		total += scn->pieces[i].len;
